@@ -155,4 +155,55 @@ theorem poll_report_justified (ch timeout : Nat) (es : List PEv) (now : Nat) (m 
   · rw [hm]; rfl
   · rw [hm]; rfl
 
+/-! ### the whole 16-channel scanner -/
+
+/-- a Control Change event in a channel's view of a history is a Control Change that was fed on that channel -/
+theorem project_cc_origin (c now : Nat) (ops : List TOp) (cn cv t : Nat) (h : PEv.cc cn cv t ∈ project c now ops) :
+    TOp.feed ⟨176 + c, cn, cv⟩ ∈ ops := by
+  induction ops generalizing now with
+  | nil => simp [project] at h
+  | cons op ops ih =>
+    simp only [project] at h
+    cases hp : projectOp c now op with
+    | none => rw [hp] at h; exact List.mem_cons_of_mem _ (ih _ h)
+    | some e =>
+      rw [hp] at h
+      rcases List.mem_cons.mp h with h | h
+      · subst h
+        cases op with
+        | feed b =>
+          simp only [projectOp] at hp
+          split at hp
+          · rename_i hs
+            injection hp with hp; injection hp with h1 h2 h3
+            obtain ⟨s, d1, d2⟩ := b
+            simp only at hs h1 h2
+            subst hs h1 h2
+            exact List.mem_cons_self
+          · cases hp
+        | poll ch => simp only [projectOp] at hp; split at hp <;> first | (injection hp with hp; cases hp) | cases hp
+        | reset => simp only [projectOp] at hp; injection hp with hp; cases hp
+        | tick d => simp [projectOp] at hp
+      · exact List.mem_cons_of_mem _ (ih _ h)
+
+/-- C13 for the WHOLE scanner: after any interleaving of valid feeds on all 16 channels, polls, resets and time steps
+    from `new(timeout)`, a poll of channel `c` returns a message only if a controller-6 message with that value was
+    fed ON CHANNEL `c` at a time at least `timeout` before the poll; the message is that 7-bit data entry -/
+theorem poll_justified_scanner (c : Nat) (hc : c < 16) (now timeout : Nat) (ops : List TOp) (hv : ∀ op ∈ ops, op.Valid) :
+    ∃ n s outs, pRun now (PScanner.new timeout) ops = .ok ((n, s), outs) ∧
+      ∀ s' m, s.poll n c = .ok (s', some m) →
+        ∃ arr f, TOp.feed ⟨176 + c, 6, f⟩ ∈ ops ∧ timeout ≤ n - arr ∧ m.value = f ∧ m.is14Bit = false ∧
+          m.dataType = .dataEntry := by
+  obtain ⟨n, s, outs, h, _, hs, _⟩ := p_run_channel c hc now (PScanner.new timeout) ops hv
+  refine ⟨n, s, outs, h, ?_⟩
+  intro s' m hp
+  have hnew : (PScanner.new timeout)[c] = ({ timeout := timeout } : PChan) := by simp [PScanner.new]
+  unfold PScanner.poll at hp
+  simp only [hc, dite_true] at hp
+  injection hp with hp
+  injection hp with _ hm
+  rw [hs, hnew] at hm
+  obtain ⟨arr, f, hmem, ht, h1, h2, h3⟩ := poll_report_justified c timeout (project c now ops) n m hm
+  exact ⟨arr, f, project_cc_origin c now ops 6 f arr hmem, ht, h1, h2, h3⟩
+
 end Midi.Props.C13
